@@ -94,6 +94,20 @@ def function_obligations(contract, mode, size, label=None, extra_posts=None, val
 
 
 def _run_contract(contract, mode, size, extra_posts, values, want_paths, exclude, only, pinned):
+    from . import sym as _sym
+    _sym.UF['on'] = bool(getattr(contract, 'uf_arith', False)) and mode == 'P'
+    try:
+        return _run_contract2(contract, mode, size, extra_posts, values, want_paths, exclude, only, pinned)
+    finally:
+        _sym.UF['on'] = False
+
+
+def _sym_uf_on():
+    from . import sym as _sym
+    return _sym.UF['on']
+
+
+def _run_contract2(contract, mode, size, extra_posts, values, want_paths, exclude, only, pinned):
     reset_fresh()
     mod = source.module(contract.rel)
     fdef = mod.func(contract.func, contract.cls)
@@ -141,7 +155,13 @@ def _run_contract(contract, mode, size, extra_posts, values, want_paths, exclude
         ctx.pc_hyp = pc2.hyp()
         if mode == 'P':
             obls.append(Obl("return.canary", pc2.hyp(), z3.BoolVal(False), 'canary'))
-        posts = contract.posts(st2, out[1], ctx)
+        try:
+            posts = contract.posts(st2, out[1], ctx)
+        except KeyError as ex:
+            if mode != 'P':
+                raise
+            from .engine import Unbound
+            raise Unbound("postcondition witnesses of %s refer to %s, which the current source does not define on a returning path" % (contract.func, ex))
         if pinned is not None:
             allp = band(*[f for _, f in posts])
             defect = pinned(ctx, st2, out[1])
@@ -157,6 +177,10 @@ def _run_contract(contract, mode, size, extra_posts, values, want_paths, exclude
             for nm, f in extra_posts(st2, out[1], ctx):
                 obls.append(Obl("post.%s" % nm, pc2.hyp(), toB(f) if not is_z3(f) else f, 'post', meta=dict(path=nret)))
     stats = dict(paths=len(paths), returning=nret, forks=eng.nforks, pruned=eng.npruned, loops=sorted(eng.loop_cover))
+    if _sym_uf_on():
+        from . import ufarith
+        obls = [ufarith.instantiate(o, getattr(ctx, 'defs', ())) for o in obls]
+        stats['uf_instances'] = sum(o.meta.get('uf_instances', 0) for o in obls)
     if want_paths:
         stats['_paths'] = paths
         stats['_ctx'] = ctx
